@@ -1,22 +1,164 @@
-"""Configuration generator: documented option domains (tables/option_domains.json) -> Hypothesis strategy of rule configurations."""
+"""Configuration generator: documented option domains (tables/option_domains.json, transcribed from docs/configuring_*.rst, the rule
+docs and the rule sources by a research pass) -> rule configurations with documented values only."""
 import json
 import os
+import random
 
 from hypothesis import strategies as st
 
 VERIF = os.path.dirname(os.path.dirname(os.path.dirname(os.path.abspath(__file__))))
 _DOM = None
+_BY_RULE = None
+BASE_ATTRS = ("indent_style", "indent_size", "phase", "disable", "fixable", "severity", "user_error_message")
+SKIP_OPTIONS = ("phase",)
+SKIP_SUBSTR = ("header_", "footer_", "comment_left", "max_header", "max_footer", "min_height")
+GROUPS_FOR = {"case": ["case", "case::keyword", "case::name", "case::label"], "number_of_spaces": ["whitespace"], "indent_size": ["indent", "alignment"], "disable": ["naming", "length", "alignment", "case::name", "blank_line"], "fixable": ["case", "whitespace", "structure", "blank_line"]}
 
 
 def domains():
-    """option -> list of {rules, values}; empty dict until the table exists"""
+    """option -> list of {rules, values, ...}"""
     global _DOM
     if _DOM is None:
         p = os.path.join(VERIF, "tables", "option_domains.json")
-        _DOM = json.load(open(p)) if os.path.exists(p) else {}
-        _DOM = {k: v for k, v in _DOM.items() if not k.startswith("_")}
+        raw = json.load(open(p)) if os.path.exists(p) else {}
+        _DOM = {}
+        for k, ents in raw.items():
+            if k.startswith("_"):
+                continue
+            keep = []
+            for e in ents:
+                if not e.get("rules"):
+                    continue
+                vals = e.get("recommended_values") or e.get("values") or []
+                unsafe = e.get("documented_but_unsafe_values") or []
+                vals = [v for v in vals if v not in unsafe and v is not None]
+                if vals:
+                    keep.append({"rules": e["rules"], "values": vals, "default": e.get("default"), "accepts_boolean": e.get("accepts_boolean")})
+            if keep:
+                _DOM[k] = keep
     return _DOM
 
 
-def conf_strategy():
-    return st.none()
+def by_rule():
+    """rule id -> {option: values} for the rule's own (non-base) options"""
+    global _BY_RULE
+    if _BY_RULE is None:
+        _BY_RULE = {}
+        for opt, ents in domains().items():
+            if opt in BASE_ATTRS or opt in SKIP_OPTIONS or any(s in opt for s in SKIP_SUBSTR):
+                continue
+            for e in ents:
+                for r in e["rules"]:
+                    _BY_RULE.setdefault(r, {})[opt] = e
+    return _BY_RULE
+
+
+def _all_rules():
+    d = domains()
+    out = set()
+    for e in d.get("disable", []):
+        out.update(e["rules"])
+    return sorted(out)
+
+
+def _default_disabled():
+    return sorted(r for e in domains().get("disable", []) if e.get("default") is True for r in e["rules"])
+
+
+def _value(rnd, opt, ent, rule_opts, out_entry):
+    v = rnd.choice(ent["values"])
+    if opt == "case" and v == "regex":
+        if "regex" in rule_opts:
+            out_entry["regex"] = rnd.choice(rule_opts["regex"]["values"])
+        else:
+            v = "upper"
+    if v in ("yes", "no") and ent.get("accepts_boolean") is True and rnd.random() < 0.3:
+        v = v == "yes"
+    return v
+
+
+def random_conf(rnd, style=None, size=None, allow_severity=True):
+    """a configuration dictionary with documented values; None for the default configuration"""
+    br = by_rule()
+    rules_with_opts = sorted(br)
+    allr = _all_rules()
+    conf = {"rule": {}}
+    n = size if size is not None else rnd.choice([1, 2, 3, 5, 8, 12])
+    for _ in range(n):
+        r = rnd.random()
+        if r < 0.55 and rules_with_opts:
+            rid = rnd.choice(rules_with_opts)
+            ent = conf["rule"].setdefault(rid, {})
+            opts = br[rid]
+            for opt in rnd.sample(sorted(opts), k=min(len(opts), rnd.randint(1, 2))):
+                if opt == "regex":
+                    continue
+                ent[opt] = _value(rnd, opt, opts[opt], opts, ent)
+            if not ent:
+                del conf["rule"][rid]
+        elif r < 0.70:
+            dd = _default_disabled()
+            for rid in rnd.sample(dd, k=min(len(dd), rnd.randint(1, 6))):
+                conf["rule"].setdefault(rid, {})["disable"] = False
+        elif r < 0.80:
+            for rid in rnd.sample(allr, k=rnd.randint(1, 8)):
+                conf["rule"].setdefault(rid, {})["disable"] = True
+        elif r < 0.86:
+            for rid in rnd.sample(allr, k=rnd.randint(1, 4)):
+                conf["rule"].setdefault(rid, {})["fixable"] = False
+        elif r < 0.92:
+            conf["rule"].setdefault("global", {})["indent_size"] = rnd.choice([1, 2, 3, 4])
+            if rnd.random() < 0.3:
+                conf["rule"]["global"]["indent_style"] = "smart_tabs"
+        elif r < 0.96:
+            opt = rnd.choice(sorted(GROUPS_FOR))
+            g = rnd.choice(GROUPS_FOR[opt])
+            if opt == "case":
+                v = rnd.choice(["upper", "lower", "upper_or_lower"])
+            elif opt == "number_of_spaces":
+                v = rnd.choice([1, 2, ">=1"])
+            elif opt == "indent_size":
+                v = rnd.choice([2, 3, 4])
+            elif opt == "disable":
+                v = rnd.choice([True, False])
+            else:
+                v = False
+            conf["rule"].setdefault("group", {})[g] = {opt: v}
+        elif allow_severity:
+            for rid in rnd.sample(allr, k=rnd.randint(1, 5)):
+                conf["rule"].setdefault(rid, {})["severity"] = "Warning"
+    if style is not None:
+        # do not redefine entries the style defines itself (whole-entry replacement would silently drop the style's other attributes)
+        import yaml
+
+        from harness import vsgapi
+
+        sc = yaml.safe_load(open(os.path.join(vsgapi.REPO, "vsg", "styles", style + ".yaml"))) or {}
+        for k in list(conf["rule"]):
+            if k in sc.get("rule", {}):
+                del conf["rule"][k]
+    if not conf["rule"]:
+        return None
+    return conf
+
+
+def random_stack(rnd, style=None):
+    """0-2 configuration files (for the -oc round trip)"""
+    k = rnd.choice([0, 1, 1, 1, 2])
+    out = []
+    for _ in range(k):
+        c = random_conf(rnd, style)
+        if c:
+            out.append(c)
+    if out and rnd.random() < 0.15:
+        out[0]["severity"] = {"Todo": {"type": "error"}, "Note": {"type": "warning"}}
+        rid = rnd.choice(_all_rules())
+        if not (style and rid in out[0]["rule"]):
+            out[0]["rule"].setdefault(rid, {})["severity"] = rnd.choice(["Todo", "Note"])
+    return out
+
+
+def conf_strategy(p_default=0.45):
+    """Hypothesis strategy: None (default configuration) or a generated configuration dictionary"""
+    gen = st.integers(0, 2**31 - 1).map(lambda s: random_conf(random.Random(s)))
+    return st.one_of(st.none(), gen) if p_default >= 0.45 else st.one_of(gen, st.none())
